@@ -165,6 +165,10 @@ PROPS = {
                               "split, range, slice, slice_from, range_from, is_label_start at every index, split_first, strip_suffix / ends_with "
                               "against every other such name, chain, into_absolute / into_relative -- against reference functions, on the real crate"},
         "kani": [
+            {"group": "g0", "name": "c06_symbol_from_chars_all_inputs", "kind": "complete", "tier": "quick",
+             "what": "Symbol::from_chars (the reader behind FromStr of names and IterScanner) reads four characters at most: over four symbolic characters "
+                     "and a symbolic length it agrees with RFC 1035 5.1 written out independently (plain character; \\DDD is the octet DDD exactly when DDD <= 255; "
+                     "\\X for printable non-digit X; otherwise an error; None on the empty source) and consumes exactly the characters of the symbol"},
             {"group": "g0", "name": "c06_label_octet_display_roundtrip", "kind": "complete", "tier": "quick", "timeout": 400,
              "what": "'converting a name to presentation text and back yields an equal name', per octet: for every octet as a "
                      "one-octet label, Display for Label -> the reader's symbol decoder yields the octet back; no unescaped dot "
@@ -428,6 +432,15 @@ PROPS = {
         "level": "proof",
         "level_prefix": "Partial proof -- contracts discharged without bound on the mechanisms named below, not the whole statement (bounded stand-ins and what is left out are listed): ",
         "units": ["tsig", "tsigvars"],
+        "extra_searches": [
+            {"bin": "c11_search_tampering", "crate": "replay_tsig", "release": True,
+             "what": "what happens to correctly signed messages on the way, all four algorithms, full and half-length MACs (168 cases): the header ID "
+                     "rewritten by a forwarder (request, answer, every answer of a sequence of three) -- the message verifies and carries the original ID "
+                     "again; the algorithm name of the TSIG record rewritten -- another letter case is accepted, further labels behind a known first label, "
+                     "another algorithm, an unknown name, the root are never accepted; the order key, MAC, time on the server -- an untouched request is "
+                     "accepted inside the fudge window and answered with a signed BADTIME (which the client authenticates) outside, a request with one MAC "
+                     "bit or one question octet flipped is answered with unsigned BADSIG whatever the clock says -- on the real crate"},
+        ],
         "vx_search": {"bin": "c11_search_small_tsig", "crate": "replay_tsig", "release": True,
                       "what": "Time48 wire round trip and eq_fudged on a grid around the byte and fudge edges; Key::new against the RFC 8945 "
                               "5.2.2.1 length rule for all algorithms and lengths 0..=70; request/answer/three-answer sequences signed and "
@@ -602,6 +615,10 @@ PROPS = {
                               "read back with the zone-file reader: each comes back equal -- on the real crate; the record level of the "
                               "statement, which no contract reaches (open findings D30 and D42 are not among the cases)"},
         "kani": [
+            {"group": "g0", "name": "c06_symbol_from_chars_all_inputs", "kind": "complete", "tier": "quick",
+             "what": "Symbol::from_chars (the reader behind FromStr of names and IterScanner) reads four characters at most: over four symbolic characters "
+                     "and a symbolic length it agrees with RFC 1035 5.1 written out independently (plain character; \\DDD is the octet DDD exactly when DDD <= 255; "
+                     "\\X for printable non-digit X; otherwise an error; None on the empty source) and consumes exactly the characters of the symbol"},
             {"group": "g0", "name": "c06_from_slice_index_window_bounded", "kind": "bounded", "tier": "quick",
              "bound": "buffers of at most 6 octets, every position 0..=8 (the function reads at most 4 octets from pos)",
              "what": "Symbol::from_slice_index (the reader): total; None exactly at/after the end; a returned end is > pos, <= len, "
@@ -757,8 +774,10 @@ PROPS = {
                      "blanks; trailing comments; data in parentheses, continuation lines with comments, parentheses glued to tokens and to the owner; "
                      "decimal and character escapes in owner names; blank and comment lines; CRLF; origin stated in the file or handed to the reader -- "
                      "each read back as exactly the records of the canonical layout; and 84 spellings of 63/64-octet labels and 255/256-octet character "
-                     "strings (plain, escaped, quoted, behind an escaped label) judged alike. On the real crate; a bounded exploration, never counted as "
-                     "an obligation"},
+                     "strings (plain, escaped, quoted, behind an escaped label) judged alike; 109 directive placements and readers: nothing / blank line / "
+                     "comment / $TTL / $ORIGIN (same or other origin) between a record and the entries that inherit its owner read like the file with every "
+                     "owner written out, and a 400-record file (> 8192 octets) through Zonefile::load from readers handing out 1 .. 8193 octets per call or "
+                     "from two or three chained pieces reads like the slice. On the real crate; a bounded exploration, never counted as an obligation"},
         ],
         "vx_search": {"bin": "c07_search_small_files", "crate": "replay_net",
                       "what": "all 30941 zone files of at most 4 octets over the tokenizer's 13 special octets, read through the public API "
